@@ -752,7 +752,7 @@ void h_removeElement_b(void) {
   } else CHECK(g_rm1_it.slot_ == 0, "beyond the end: a done iterator (removeOne then changes nothing: coll_remove/remove_done)");
   CHECK(unchanged_except(0) && g_free_calls == 0, "removeElement itself writes nothing");
 }
-/* getOrAddElement(i): arrays of <= 2 elements, i <= n+2 (up to 3 allocations, each may fail) */
+/* getOrAddElement(i): arrays of <= 2 elements, i <= n+1 (up to 2 allocations, each may fail) */
 void h_getOrAddElement_b(void) {
   mk_store(1);
   struct ArrayData a;
@@ -760,11 +760,11 @@ void h_getOrAddElement_b(void) {
   __CPROVER_assume(g_n <= 2);
   unsigned n0 = g_n;
   unsigned long index = in_u64();
-  __CPROVER_assume(index <= n0 + 2);
+  __CPROVER_assume(index <= n0 + 1);
   snapshot();
   VD *r = ArrayData__getOrAddElement(&a, index, &g_rm);
   unsigned k = g_alloc_ok; /* elements actually added */
-  COVER(index < n0); COVER(index == n0 + 2 && r != 0); COVER(index == n0 + 2 && r == 0 && k == 2); COVER(n0 == 0 && index == 0 && r != 0);
+  COVER(index < n0); COVER(index == n0 + 1 && r != 0); COVER(index == n0 + 1 && r == 0 && k == 1); COVER(n0 == 0 && index == 0 && r != 0);
   unsigned e[6], m = 0;
   for (unsigned j = 0; j < 2; j++) if (j < n0) e[m++] = g_p[j];
   for (unsigned j = 0; j < 3; j++) if (j < k) e[m++] = NS - 1 - j;
@@ -951,7 +951,6 @@ void h_getMember_b(void) {
   struct ObjectData o0 = o;
   snapshot();
   VD *r = ObjectData__getMember_SizedRamString__SizedRamString_ResourceManager_p(&o, g_key, &g_rm);
-  unsigned long sz = ObjectData__size__ResourceManager_p(&o, &g_rm);
   int f = model_find();
   COVER(f == 0); COVER(f == 2); COVER(f < 0);
 #ifdef CANARY_GET_MEMBER
@@ -959,8 +958,22 @@ void h_getMember_b(void) {
 #else
   CHECK(r == (f >= 0 ? &g_slots[f + 1] : (VD *)0), "getMember returns the slot after the matching key (its value), null if none");
 #endif
+  CHECK(unchanged_except(0) && g_free_calls == 0 && g_alloc_calls == 0 && o._b_CollectionData.head_ == o0._b_CollectionData.head_ && o._b_CollectionData.tail_ == o0._b_CollectionData.tail_, "getMember is read-only");
+}
+void h_objsize_b(void) {
+  struct ObjectData o;
+  mk_store(1);
+  mk_list(&o._b_CollectionData, 1);
+  struct ObjectData o0 = o;
+  snapshot();
+  unsigned long sz = ObjectData__size__ResourceManager_p(&o, &g_rm);
+  COVER(g_n == 0); COVER(g_n == 4);
+#ifdef CANARY_OBJ_SIZE
+  CHECK(sz == g_n / 2 + (g_n == 2), "size() of an object == number of key/value pairs");
+#else
   CHECK(sz == g_n / 2, "size() of an object == number of key/value pairs");
-  CHECK(unchanged_except(0) && g_free_calls == 0 && g_alloc_calls == 0 && o._b_CollectionData.head_ == o0._b_CollectionData.head_ && o._b_CollectionData.tail_ == o0._b_CollectionData.tail_, "getMember and size are read-only");
+#endif
+  CHECK(unchanged_except(0) && g_free_calls == 0 && g_alloc_calls == 0 && o._b_CollectionData.head_ == o0._b_CollectionData.head_ && o._b_CollectionData.tail_ == o0._b_CollectionData.tail_, "size() is read-only");
 }
 /* removeMember(key) == removePair(findKey(key)); callee contract: coll_remove/removePair (+ coll_core/removePair_le4) */
 static struct CollectionIterator g_rmp_it;
@@ -1460,7 +1473,35 @@ void h_dispatch(void) {
 #endif
 
 /* ===================================================================================================================
- * unit coll_loops: the three list traversals of CollectionData closed by loop contracts => lists of ARBITRARY length (U).
+ * unit coll_setint_noll (configuration noll only: ARDUINOJSON_USE_LONG_LONG=0 on a host whose long has 64 bits).
+ * There the setters call nothing (no extension slot exists for integers), so the harness needs no stub and replays natively.
+ * Oracle (C04 "every observable equals what the model predicts" / C05 "the affected operation reports the failure"):
+ * a setter that reports success has stored the value. */
+#ifdef U_SETINT_NOLL
+void h_setint_noll(void) {
+  VD v;
+  havoc_slot(&v);
+  v.type_ = VT_NULL;
+  _Bool is_signed = in_bool();
+  int64_t sv = in_i64();
+  uint64_t uv = in_u64();
+  _Bool ok = is_signed ? VariantData__setInteger_long(&v, (long)sv, (struct ResourceManager *)0)
+                       : VariantData__setInteger_ulong(&v, (unsigned long)uv, (struct ResourceManager *)0);
+  _Bool fits32 = is_signed ? (sv >= -2147483647 - 1 && sv <= 2147483647) : (uv <= 0xFFFFFFFFull);
+  COVER(is_signed && fits32); COVER(!is_signed && fits32); COVER(is_signed && !fits32); COVER(!is_signed && !fits32);
+  VERIF_OUT("ok", ok); VERIF_OUT("type", v.type_);
+#ifdef CANARY_SETINT_NOLL
+  if (fits32) CHECK(ok && (is_signed ? (v.type_ == VT_INT32 && v.content_.asInt32 == sv + (sv == 5)) : (v.type_ == VT_UINT32 && v.content_.asUint32 == uv)), "a value within 32 bits is stored inline with that value");
+#else
+  if (fits32) CHECK(ok && (is_signed ? (v.type_ == VT_INT32 && v.content_.asInt32 == sv) : (v.type_ == VT_UINT32 && v.content_.asUint32 == uv)), "a value within 32 bits is stored inline with that value");
+#endif
+  else CHECK(!ok || v.type_ != VT_NULL, "a setter that reports success has stored the value (otherwise it reports false)");
+}
+#endif
+
+/* ===================================================================================================================
+ * unit coll_loops: the list traversals getPreviousSlot, clear, size and ArrayData::at closed by loop contracts => lists of
+ * ARBITRARY length (U).
  * Big store: g_cnt <= NULL_SLOT slots (symbolic), id == index.  The ordered-list model is carried by ghost arrays:
  *   g_rank[id]  steps to the end of the list (acyclicity, termination)      g_pos[id]  position in the list, g_len its length
  *   g_member[id] the slot is linked in the list                              g_dist[id] steps to the witness slot g_w
@@ -1551,7 +1592,7 @@ void h_size_u(void) {
 #endif
   CHECK(u_same() && g_free_calls == 0 && c.head_ == c0.head_ && c.tail_ == c0.tail_, "size() is read-only (arbitrary witness slot unchanged, nothing released)");
 }
-/* ArrayData::at(i) / getElement(i): the i-th slot of the list, a done iterator / null beyond the end; any length, any index */
+/* ArrayData::getElement(i) == at(i).data(): the i-th slot of the list, null beyond the end; any length, any index */
 void h_at_u(void) {
   mk_big();
   struct ArrayData a;
@@ -1559,16 +1600,13 @@ void h_at_u(void) {
   struct ArrayData a0 = a;
   __CPROVER_assume(a._b_CollectionData.head_ == NSLOT ? g_len == 0 : (a._b_CollectionData.head_ < g_cnt && g_pos[a._b_CollectionData.head_] == 0));
   g_idx0 = in_u64();
-  struct CollectionIterator it = ArrayData__at(&a, g_idx0, &g_rm);
   VD *e = ArrayData__getElement__ulong_ResourceManager_p(&a, g_idx0, &g_rm);
-  COVER(it.slot_ == 0 && g_len > 5); COVER(it.slot_ != 0 && g_idx0 > 5); COVER(g_len == 0);
+  COVER(e == 0 && g_len > 5); COVER(e != 0 && g_idx0 > 5); COVER(g_len == 0);
 #ifdef CANARY_AT_U
-  CHECK((it.slot_ != 0) == (g_idx0 < g_len) && g_idx0 != 9, "at(i) designates a slot iff i < size");
+  CHECK((e != 0) == (g_idx0 < g_len) && g_idx0 != 9, "getElement(i) is null iff i >= size");
 #else
-  CHECK((it.slot_ != 0) == (g_idx0 < g_len), "at(i) designates a slot iff i < size");
-#endif
-  CHECK(it.slot_ == 0 || (it.currentId_ < g_cnt && it.slot_ == &g_store[it.currentId_] && g_pos[it.currentId_] == g_idx0), "at(i) designates the slot at position i of the list");
   CHECK((e != 0) == (g_idx0 < g_len), "getElement(i) is null iff i >= size");
+#endif
   uint64_t k = e ? (uint64_t)(e - g_store) : 0;
   CHECK(e == 0 || (k < g_cnt && e == &g_store[k] && g_pos[k] == g_idx0), "getElement(i) is the slot at position i of the list");
   CHECK(u_same() && g_free_calls == 0 && a._b_CollectionData.head_ == a0._b_CollectionData.head_ && a._b_CollectionData.tail_ == a0._b_CollectionData.tail_, "at()/getElement() are read-only");
